@@ -12,6 +12,7 @@ import (
 	"os"
 	"sort"
 	"strconv"
+	"strings"
 	"testing"
 	"time"
 
@@ -104,6 +105,7 @@ type Stats struct {
 	SigFile       string         `json:"sig_file"`
 	TimedOut      bool           `json:"timed_out"`
 	MismatchNotes []string       `json:"mismatch_notes,omitempty"`
+	KnownHits     int            `json:"known_finding_hits"`
 }
 
 func SplitMix(x uint64) uint64 {
@@ -174,6 +176,33 @@ func mkFound(spec *Spec, prop string, sc any, o *Outcome, base uint64, idx int, 
 	}
 }
 
+// KnownFinding identifies one recorded genuine defect that is not repaired:
+// exactly this violation class with this text in its message is not reported
+// again (a different violation of the same property still is).
+type KnownFinding struct {
+	Class string `json:"class"`
+	Sig   string `json:"sig"`
+}
+
+func loadKnown() []KnownFinding {
+	var k []KnownFinding
+	if v := os.Getenv("SIM_KNOWN"); v != "" {
+		if err := json.Unmarshal([]byte(v), &k); err != nil {
+			fatal("bad SIM_KNOWN: %v", err)
+		}
+	}
+	return k
+}
+
+func isKnown(known []KnownFinding, v *Violation) bool {
+	for _, k := range known {
+		if v.Class == k.Class && strings.Contains(v.Msg, k.Sig) {
+			return true
+		}
+	}
+	return false
+}
+
 // Main is the body of an engine's single test function.
 func Main(t *testing.T, spec *Spec) {
 	mode := os.Getenv("SIM_MODE")
@@ -210,6 +239,7 @@ func search(t *testing.T, spec *Spec) {
 	out := os.Getenv("SIM_OUT")
 	t0 := time.Now()
 	st := &Stats{Strategies: map[string]int{}, Faults: map[string]int{}, Probes: map[string]int{}}
+	known := loadKnown()
 	st.SigFile = out + ".sigs"
 	sf, err := os.Create(st.SigFile)
 	if err != nil {
@@ -276,6 +306,10 @@ func search(t *testing.T, spec *Spec) {
 			seed := RunSeed(base^0xc0ffee, ci)
 			o := spec.Run(t, prop, sc, simrt.Config{Seed: seed})
 			st.CorpusRuns++
+			if o.V != nil && isKnown(known, o.V) {
+				st.KnownHits++
+				o.V = nil
+			}
 			account(sc, o, -1-ci)
 			if o.V != nil {
 				st.Found = mkFound(spec, prop, sc, o, base, -1-ci, seed)
@@ -300,6 +334,10 @@ func search(t *testing.T, spec *Spec) {
 		}
 		o := spec.Run(t, prop, sc, simrt.Config{Seed: seed})
 		st.Runs++
+		if o.V != nil && isKnown(known, o.V) {
+			st.KnownHits++
+			o.V = nil
+		}
 		account(sc, o, idx)
 		if hl != nil {
 			vc := ""
